@@ -253,6 +253,12 @@ def run(ctx):
         (["Enum", ["name", "Byte"], [["one", 1], ["two", 2]]], [bytes([x]) for x in range(256)]),
         (["Optional", ["name", "Int16ub"]], [b"", b"\x01", b"\x01\x02", b"\x01\x02\x03"]),
         (["GreedyRange", ["name", "Int16ub"]], [b"\x00\x01\x00\x02\x03", b"\x01"]),
+        # alternatives: an earlier one fails on build only after it has produced bytes
+        (["Select", [["Struct", [["k", ["name", "Byte"]], ["v", ["name", "Int8ub"]], [None, ["name", "Terminated"]]]], ["Struct", [["k", ["name", "Byte"]], ["v", ["name", "Int16ub"]], [None, ["name", "Terminated"]]]]]],
+         [b"\x01\x02", b"\x01\x02\x03", b"\x01\x00\x03", b"\x01", b"\x01\x02\x03\x04"]),
+        (["Struct", [["h", ["name", "Byte"]], ["b", ["Prefixed", ["name", "Byte"], ["Select", [["Sequence", [[None, ["name", "Byte"]], [None, ["PascalString", ["name", "Byte"], "ascii"]], [None, ["name", "Terminated"]]]],
+                                                                                      ["Sequence", [[None, ["name", "Byte"]], [None, ["name", "Int16ub"]]]]]], False]], ["t", ["name", "Byte"]]]],
+         [b"\x09\x03\x01\x02\x03\x07", b"\x09\x03\x01\x01\x41\x07", b"\x09\x04\x01\x02\x03\x04\x07"]),
         (["BitStruct", [["a", ["name", "Flag"]], [None, ["Padding", 3]], ["b", ["name", "Nibble"]]]], [bytes([x]) for x in range(256)]),
     ]
     for i, (r, ins) in enumerate(classics):
